@@ -198,8 +198,16 @@ func init() {
 	})
 	regRT("ParseLnCol", func(ip *Interp, fr *frame, args []Value) Value {
 		// "Ln <line>, Col <col>: ..." -> (line, col, ok) without forcing lazy number segments
-		line, col, ok := ip.parseLnCol(args[0])
+		line, col, ok, _ := ip.parseDiag(args[0])
 		return Tuple{line, col, Bool(ok)}
+	})
+	regRT("DiagText", func(ip *Interp, fr *frame, args []Value) Value {
+		// the text behind "Ln x, Col y: " ("" when the prefix is malformed)
+		_, _, ok, rest := ip.parseDiag(args[0])
+		if !ok {
+			return ""
+		}
+		return rest
 	})
 	regRT("HasPrefixC", func(ip *Interp, fr *frame, args []Value) Value {
 		// prefix test that tolerates lazy/opaque tails: compares only leading bytes
@@ -242,8 +250,9 @@ func (ip *Interp) hasConcretePrefix(v Value, p string) *Term {
 
 var _ = types.Typ
 
-func (ip *Interp) parseLnCol(v Value) (line, col *Term, ok bool) {
+func (ip *Interp) parseDiag(v Value) (line, col *Term, ok bool, rest Value) {
 	zero := Const(64, 0)
+	rest = ""
 	type atom struct {
 		b *Term
 		g *strSeg
@@ -261,9 +270,6 @@ func (ip *Interp) parseLnCol(v Value) (line, col *Term, ok bool) {
 			}
 		default:
 			atoms = append(atoms, atom{g: g})
-		}
-		if len(atoms) > 80 {
-			break
 		}
 	}
 	i := 0
@@ -294,15 +300,33 @@ func (ip *Interp) parseLnCol(v Value) (line, col *Term, ok bool) {
 		return Const(64, n), digits > 0
 	}
 	if !lit("Ln ") {
-		return zero, zero, false
+		return zero, zero, false, rest
 	}
 	l, ok1 := num()
 	if !ok1 || !lit(", Col ") {
-		return zero, zero, false
+		return zero, zero, false, rest
 	}
 	c, ok2 := num()
 	if !ok2 || !lit(": ") {
-		return zero, zero, false
+		return zero, zero, false, rest
 	}
-	return l, c, true
+	// remainder: atoms[i:] back into segments
+	var segs []*strSeg
+	var run []*Term
+	flush := func() {
+		if len(run) > 0 {
+			segs = append(segs, &strSeg{kind: segBytes, b: run})
+			run = nil
+		}
+	}
+	for _, a := range atoms[i:] {
+		if a.b != nil {
+			run = append(run, a.b)
+		} else {
+			flush()
+			segs = append(segs, a.g)
+		}
+	}
+	flush()
+	return l, c, true, normStr(segs)
 }
